@@ -28,6 +28,15 @@ for m in sorted(glob.glob(f"{ROOT}/seeded/*/meta.json")):
     S.append(f"| `{n}` | {j['needs_to_manifest'][:140]} | {'**NOT CAUGHT** — ' if j['check_exit_with_patch'] != 1 else ''}{j['caught_by'][:260]} |")
 tmpl = open(f"{ROOT}/harness/design_section10.tmpl").read()
 sec = tmpl.replace("{{FIXED}}", "\n".join(F) + "\n").replace("{{FINDINGS}}", "\n".join(N) + "\n").replace("{{SEEDS}}", "\n".join(S) + "\n")
+# theorems per property, read from the Props files
+import re
+T = ["", "### 10.6 Theorems per property (as built)", "",
+     "Read from `lean/CobraModel/Props/Cxx.lean` when this section was generated; every one of them is audited with `#print axioms` on every run.", "",
+     "| property | theorems |", "|---|---|"]
+for f in sorted(glob.glob(f"{ROOT}/lean/CobraModel/Props/C*.lean")):
+    names = re.findall(r"^theorem\s+([A-Za-z0-9_'.]+)", open(f).read(), re.M)
+    T.append(f"| {os.path.basename(f)[:-5]} | " + ", ".join(f"`{n}`" for n in names) + " |")
+sec = sec.rstrip("\n") + "\n" + "\n".join(T) + "\n"
 s = open(f"{ROOT}/DESIGN.md").read()
 i = s.index("## 10. As built")
 open(f"{ROOT}/DESIGN.md", "w").write(s[:i] + sec)
